@@ -55,6 +55,21 @@ def run(ctx):
     for need in ("rule:cfi", "rule:cfi_big"):
         if rep3["classes"].get(need, 0) == 0:
             raise core.ToolFailure("vacuous replay: no walk under rule shape %s" % need)
+    # ---- which registers a frame recovered by STACK CFI knows, through the real ARM64 / ARM / MIPS contexts: forwarded only when known in
+    # the callee, set from their rules otherwise (WalkerArm.tla / WalkerMips.tla, mode any); a disagreement on a CFI frame is a violation here
+    strict_classes = {}
+    drift_before = list(ctx.drift)
+    for arch_args, module, cfg in ((["arm64", "linux"], "WalkerArm", "MC_WalkerArm_arm64_linux_any"), (["arm", "linux"], "WalkerArm", "MC_WalkerArm_arm_linux_any"),
+                                   (["mips"], "WalkerMips", "MC_WalkerMips_32_any")):
+        wm = ctx.tlc(module, cfg, coverage=False, timeout=3000, out_name="strict_" + cfg)
+        if wm.violated:
+            raise core.ToolFailure("invariant %s of %s.tla is violated in the model" % (wm.violated, module))
+        rs = ctx.read_harness_report(ctx.harness("replay_walk", arch_args + [wm.out_path, ctx.work / ("strict_%s.trace.ndjson" % cfg)], out_name="replay_strict_%s.out" % cfg,
+                                                 timeout=3000, env={"VERIF_STRICT_CFI_REGS": "1"}))
+        if rs["classes"].get("frame:cfi", 0) == 0:
+            raise core.ToolFailure("vacuous replay: no CFI frame under %s" % cfg)
+        strict_classes[cfg] = rs["classes"].get("frame:cfi", 0)
+        ctx.drift = list(drift_before)          # everything that is not a CFI-register disagreement is C05's business, not this check's
     # ---- V: random long programs validated by the trace spec
     nprog = 600 if tier == "quick" else 6000
     tr = ctx.harness("record_cfi", [nprog], out_name="cfi_trace.ndjson")
